@@ -7,8 +7,14 @@ import DoviModel.Proofs.Hevc
 Theorems about the model `Hevc.mux` (BL frame buffer against the queue of EL frames, `Model/Hevc.lean`) and its
 composition with `Hevc.general (cfgDemux ..)`.  `./check C06` ties the model to the real CLI on every generated
 pair (driver ops `hevc.mux`, `hevc.general demux`), including the cases the property leaves open (EL shorter
-than BL), where the model states what the tool does.  Frame labels (`Item.au`), regenerated AUD bytes (`aud`)
-and RPU rewrites (`conv`) are parameters.
+than BL), where the model states what the tool does.  Frame labels (`Item.au`), the frame count of the BL
+(`nFrames`), regenerated AUD bytes (`aud`) and RPU rewrites (`conv`) are parameters.
+
+`nFrames` decides what `finalize` does with the last BL frame buffer: hevc_parser labels the NALs that follow the
+last slice of a stream (an AUD, a prefix SEI, parameter sets …) with the frame count, and mux does not write a last
+buffer with that number.  The theorems that say "every NAL is kept" therefore carry the hypothesis
+`hfr : ∀ it ∈ bl, it.au < nFrames` (every BL NAL belongs to a frame that has a slice); `mux_drops_trailing_nals`
+says what happens otherwise.
 -/
 namespace Dovi.C06
 open Dovi Dovi.Split Dovi.Hevc
@@ -23,13 +29,15 @@ theorem layer_chunking_irrelevant (cs cs' : List Bytes) (l l' : Bytes)
 
 /-- **Alignment.**  With as many EL frames as BL frames, mux succeeds without error and its output is, for
 k = 0, 1, …, the muxed frame built from BL frame buffer k and EL frame k (`muxFrame`, structure below) —
-for every pair of streams (the last BL frame buffer holding at least one NAL that is kept). -/
-theorem mux_alignment (c : MCfg) (aud : Nat → Bytes) (conv : Bytes → Option Bytes) (bl el : List Item)
+for every pair of streams (every BL NAL belonging to a frame, `hfr`; the last BL frame buffer holding at least one
+NAL that is kept). -/
+theorem mux_alignment (c : MCfg) (aud : Nat → Bytes) (conv : Bytes → Option Bytes) (nFrames : Nat) (bl el : List Item)
     (els : List (List Out)) (hdrop : c.drop = false) (hels : elFrames c conv (runs el) = some els)
     (hlen : (frames bl).length = (runs el).length)
+    (hfr : ∀ it ∈ bl, it.au < nFrames)
     (hlast : ∀ fr, (frames bl).getLast? = some fr → blBody c fr.2 ≠ []) :
-    mux c aud conv bl el = some (((frames bl).zip els).flatMap (fun p => muxFrame c aud p.1 p.2), false) :=
-  mux_aligned c aud conv bl el els hdrop hels hlen hlast
+    mux c aud conv nFrames bl el = some (((frames bl).zip els).flatMap (fun p => muxFrame c aud p.1 p.2), false) :=
+  mux_aligned c aud conv nFrames bl el els hdrop hels hlen hfr hlast
 
 /-- **Frame structure.**  A muxed frame is: the buffered BL NALs of the frame — led by exactly one regenerated
 AUD unless --no-add-aud (`muxBody`; existing AUDs are not buffered then), UNSPEC62/63 NALs of the BL not carried
@@ -80,31 +88,50 @@ theorem mux_discard_keeps_only_rpu (c : MCfg) (conv : Bytes → Option Bytes) (l
 
 /-- **EL longer than BL** must end with an error status and an output trimmed to the BL length: the aligned
 interleave of the BL frames with the first EL frames, error flag set. -/
-theorem mux_el_longer_errors (c : MCfg) (aud : Nat → Bytes) (conv : Bytes → Option Bytes) (bl el : List Item)
+theorem mux_el_longer_errors (c : MCfg) (aud : Nat → Bytes) (conv : Bytes → Option Bytes) (nFrames : Nat) (bl el : List Item)
     (els : List (List Out)) (hdrop : c.drop = false) (hels : elFrames c conv (runs el) = some els)
     (hlen : (frames bl).length < (runs el).length)
+    (hfr : ∀ it ∈ bl, it.au < nFrames)
     (hlast : ∀ fr, (frames bl).getLast? = some fr → blBody c fr.2 ≠ []) :
-    mux c aud conv bl el = some (((frames bl).zip els).flatMap (fun p => muxFrame c aud p.1 p.2), true) :=
-  mux_el_longer c aud conv bl el els hdrop hels hlen hlast
+    mux c aud conv nFrames bl el = some (((frames bl).zip els).flatMap (fun p => muxFrame c aud p.1 p.2), true) :=
+  mux_el_longer c aud conv nFrames bl el els hdrop hels hlen hfr hlast
+
+/-- **BL NALs behind the last slice are dropped — and the last EL frame with them.**  hevc_parser labels the NALs
+that follow the last slice of the BL and would open a new access unit (an AUD, a prefix SEI, VPS/SPS/PPS …) with
+the frame count; they close the buffer of the last frame and form the last frame buffer themselves, which
+`finalize` does not write.  For a BL `bl` whose every NAL belongs to a frame, followed by at least one such NAL
+(`tail`), and as many EL frames as `bl` has frame buffers: the output is the aligned interleave of `bl` with the
+EL in which the last EL frame is replaced by nothing — no NAL of `tail` is written (also under --no-add-aud), the
+EL frame (and RPU) of the last picture is never written, and the exit status is 0. -/
+theorem mux_drops_trailing_nals (c : MCfg) (aud : Nat → Bytes) (conv : Bytes → Option Bytes) (nFrames : Nat)
+    (bl tail el : List Item) (els : List (List Out)) (hdrop : c.drop = false)
+    (hels : elFrames c conv (runs el) = some els) (hlen : (frames bl).length = (runs el).length)
+    (hn : nFrames ≠ 0) (hfr : ∀ it ∈ bl, it.au < nFrames)
+    (htail : ∀ it ∈ tail, it.au = nFrames) (hne : tail ≠ []) :
+    mux c aud conv nFrames (bl ++ tail) el =
+      some (((frames bl).zip (els.dropLast ++ [[]])).flatMap (fun p => muxFrame c aud p.1 p.2), false) :=
+  mux_trailing_dropped c aud conv nFrames bl tail el els hdrop hels hlen hn hfr htail hne
 
 /-! ## inverses -/
 
 /-- **demux(mux(BL, EL)) returns both layers' NAL payloads.**  Equal frame counts, no --discard, no mode:
 whatever frame labels the muxed stream is read back with, demux's EL file holds exactly the NALs of the EL that
 was muxed in (every byte, RPUs in place) and its BL file holds, frame by frame, the buffered BL NALs
-(`muxBlPart`: regenerated AUD first unless --no-add-aud, EOS/EOB moved behind unless --eos-before-el). -/
-theorem mux_demux_id (c : MCfg) (aud : Nat → Bytes) (conv conv' : Bytes → Option Bytes) (bl el : List Item)
+(`muxBlPart`: regenerated AUD first unless --no-add-aud, EOS/EOB moved behind unless --eos-before-el) — for a BL
+whose every NAL belongs to a frame (`hfr`). -/
+theorem mux_demux_id (c : MCfg) (aud : Nat → Bytes) (conv conv' : Bytes → Option Bytes) (nFrames : Nat) (bl el : List Item)
     (out : List Out) (e : Bool) (mo : List Item) (s : Sinks) (annexb' : Bool)
     (hdrop : c.drop = false) (hd : c.discard = false) (hcs : c.convSet = false)
     (hlen : (frames bl).length = (runs el).length)
+    (hfr : ∀ it ∈ bl, it.au < nFrames)
     (hlast : ∀ fr, (frames bl).getLast? = some fr → blBody c fr.2 ≠ [])
-    (hmux : mux c aud conv bl el = some (out, e))
+    (hmux : mux c aud conv nFrames bl el = some (out, e))
     (hmo : mo.map payI = out.map pay) (hnd : NoDupFrom 0 (rpuAus mo))
     (hdemux : general { cfgDemux false with annexb := annexb' } conv' mo = some s) :
     e = false ∧
     s.el.map pay = el.map (fun it => if it.typ ≠ NAL_UNSPEC62 then (nalType it.data, it.data) else (NAL_UNSPEC62, it.data)) ∧
     s.bl.map pay = (frames bl).flatMap (muxBlPart c aud) :=
-  mux_demux c aud conv conv' bl el out e mo s annexb' hdrop hd hcs hlen hlast hmux hmo hnd hdemux
+  mux_demux c aud conv conv' nFrames bl el out e mo s annexb' hdrop hd hcs hlen hfr hlast hmux hmo hnd hdemux
 
 /-- … and with --no-add-aud --eos-before-el the BL comes back exactly (its own UNSPEC62/63 NALs aside) -/
 theorem mux_demux_bl_exact (c : MCfg) (aud : Nat → Bytes) (bl : List Item)
@@ -133,33 +160,36 @@ theorem mux_demux_bl_exact (c : MCfg) (aud : Nat → Bytes) (bl : List Item)
 [BL NALs][EL NALs + RPU][EOS/EOB] (`DlFrame.Wf`: at least one BL NAL and one EL-bound NAL per unit, UNSPEC63 NALs
 with the header `7E 01`, units numbered from 0 with adjacent numbers distinct), muxing the BL half with the EL
 half — the halves as `demux_partition` (C05) says demux writes them — under --no-add-aud yields the original
-NAL sequence, every NAL with its bytes, and no error. -/
-theorem demux_mux_id (c : MCfg) (aud : Nat → Bytes) (conv : Bytes → Option Bytes) (f0 : DlFrame) (rest : List DlFrame)
+NAL sequence, every NAL with its bytes, and no error; `nFrames` = the frame count of the BL half, every NAL
+belonging to a frame (`hfr`). -/
+theorem demux_mux_id (c : MCfg) (aud : Nat → Bytes) (conv : Bytes → Option Bytes) (nFrames : Nat) (f0 : DlFrame) (rest : List DlFrame)
     (hna : c.noAddAud = true) (heos : c.eosBeforeEl = false) (hd : c.discard = false) (hcs : c.convSet = false)
-    (hdrop : c.drop = false) (h0 : f0.au = 0) (hl : LabelsOk f0.au rest) (hwf : ∀ f ∈ f0 :: rest, f.Wf) :
-    ∃ out, mux c aud conv (((f0 :: rest).flatMap DlFrame.all).filter isBl)
+    (hdrop : c.drop = false) (h0 : f0.au = 0) (hl : LabelsOk f0.au rest) (hwf : ∀ f ∈ f0 :: rest, f.Wf)
+    (hfr : ∀ it ∈ (f0 :: rest).flatMap DlFrame.all, it.au < nFrames) :
+    ∃ out, mux c aud conv nFrames (((f0 :: rest).flatMap DlFrame.all).filter isBl)
         ((((f0 :: rest).flatMap DlFrame.all).filter isEl).map unwrapItem) = some (out, false) ∧
       out.map pay = ((f0 :: rest).flatMap DlFrame.all).map payI :=
-  Hevc.demux_mux_id c aud conv f0 rest hna heos hd hcs hdrop h0 hl hwf
+  Hevc.demux_mux_id c aud conv nFrames f0 rest hna heos hd hcs hdrop h0 hl hwf hfr
 
 /-- **mux(demux(s)) = s with AUDs regenerated**: the same for a source in canonical form — every access unit led by
 the very AUD the tool regenerates for it (`DlFrame.CanonAud`) — without --no-add-aud. -/
-theorem demux_mux_id_canonical (c : MCfg) (aud : Nat → Bytes) (conv : Bytes → Option Bytes) (f0 : DlFrame) (rest : List DlFrame)
+theorem demux_mux_id_canonical (c : MCfg) (aud : Nat → Bytes) (conv : Bytes → Option Bytes) (nFrames : Nat) (f0 : DlFrame) (rest : List DlFrame)
     (hna : c.noAddAud = false) (heos : c.eosBeforeEl = false) (hd : c.discard = false) (hcs : c.convSet = false)
     (hdrop : c.drop = false) (h0 : f0.au = 0) (hl : LabelsOk f0.au rest) (hwf : ∀ f ∈ f0 :: rest, f.Wf)
+    (hfr : ∀ it ∈ (f0 :: rest).flatMap DlFrame.all, it.au < nFrames)
     (hca : ∀ f ∈ f0 :: rest, f.CanonAud aud) :
-    ∃ out, mux c aud conv (((f0 :: rest).flatMap DlFrame.all).filter isBl)
+    ∃ out, mux c aud conv nFrames (((f0 :: rest).flatMap DlFrame.all).filter isBl)
         ((((f0 :: rest).flatMap DlFrame.all).filter isEl).map unwrapItem) = some (out, false) ∧
       out.map pay = ((f0 :: rest).flatMap DlFrame.all).map payI :=
-  Hevc.demux_mux_id_canonical c aud conv f0 rest hna heos hd hcs hdrop h0 hl hwf hca
+  Hevc.demux_mux_id_canonical c aud conv nFrames f0 rest hna heos hd hcs hdrop h0 hl hwf hfr hca
 
 /-- … **byte-identical**: with the start-code preset `four` (the default) every NAL mux writes is behind a 4-byte
 start code, so for a canonical source written with 4-byte start codes (and no trailing zero bytes) the muxed file
 equals the source byte for byte -/
-theorem mux_start_codes_four (c : MCfg) (aud : Nat → Bytes) (conv : Bytes → Option Bytes) (bl el : List Item)
-    (out : List Out) (e : Bool) (h : c.annexb = false) (hm : mux c aud conv bl el = some (out, e)) :
+theorem mux_start_codes_four (c : MCfg) (aud : Nat → Bytes) (conv : Bytes → Option Bytes) (nFrames : Nat) (bl el : List Item)
+    (out : List Out) (e : Bool) (h : c.annexb = false) (hm : mux c aud conv nFrames bl el = some (out, e)) :
     ∀ o ∈ out, o.sc = 4 :=
-  mux_four c aud conv bl el out e h hm
+  mux_four c aud conv nFrames bl el out e h hm
 
 /-! ## non-vacuity: two frames, the first closed by EOS -/
 
@@ -170,11 +200,11 @@ def exEl : List Item :=
   [⟨19, [0x26, 1, 0xAB], 0⟩, ⟨62, [0x7C, 1, 0x19, 0xA0], 0⟩, ⟨1, [0x02, 1, 0xBC], 1⟩, ⟨62, [0x7C, 1, 0x19, 0xA1], 1⟩]
 def exAud : Nat → Bytes := fun k => [[0x46, 1, 0x10], [0x46, 1, 0x30]].getD k []
 
-/-- the hypotheses of `mux_alignment` hold … -/
+/-- the hypotheses of `mux_alignment` hold (two frames) … -/
 example : (frames exBl).length = (runs exEl).length ∧
     (∀ fr, (frames exBl).getLast? = some fr → blBody {} fr.2 ≠ []) ∧
-    (elFrames {} (fun _ => none) (runs exEl)).isSome = true := by
-  refine ⟨by decide, ?_, by decide⟩
+    (elFrames {} (fun _ => none) (runs exEl)).isSome = true ∧ (∀ it ∈ exBl, it.au < 2) := by
+  refine ⟨by decide, ?_, by decide, by decide⟩
   intro fr h
   have : (frames exBl).getLast? = some (1, [⟨1, [0x02, 1, 0xBB], 1⟩, ⟨40, [0x50, 1, 5, 1, 7, 0x80], 1⟩]) := by decide
   rw [this] at h
@@ -183,25 +213,38 @@ example : (frames exBl).length = (runs exEl).length ∧
   decide
 
 /-- … and the muxed stream: AUD regenerated (the BL's own dropped), EOS after the EL, EL wrapped, RPU as is -/
-example : (mux {} exAud (fun _ => none) exBl exEl).map (fun r => (r.1.map pay, r.2)) = some
+example : (mux {} exAud (fun _ => none) 2 exBl exEl).map (fun r => (r.1.map pay, r.2)) = some
     ([(35, [0x46, 1, 0x10]), (32, [0x40, 1, 0x0C]), (19, [0x26, 1, 0xAA]), (63, [0x7E, 1, 0x26, 1, 0xAB]),
       (62, [0x7C, 1, 0x19, 0xA0]), (36, [0x48, 1]),
       (35, [0x46, 1, 0x30]), (1, [0x02, 1, 0xBB]), (40, [0x50, 1, 5, 1, 7, 0x80]), (63, [0x7E, 1, 0x02, 1, 0xBC]),
       (62, [0x7C, 1, 0x19, 0xA1])], false) := by decide
 
 /-- EL longer than BL: same output for the BL's frames, error flag -/
-example : ((mux {} exAud (fun _ => none) (exBl.take 4) exEl).map (fun r => (r.1.length, r.2))) = some (6, true) := by decide
+example : ((mux {} exAud (fun _ => none) 1 (exBl.take 4) exEl).map (fun r => (r.1.length, r.2))) = some (6, true) := by decide
 
 /-- EL shorter than BL (left open by the property): the tool holds the last EL frame back for the last BL frame -/
-example : ((mux {} exAud (fun _ => none) exBl (exEl.take 2)).map (fun r => r.1.map (·.typ))) =
+example : ((mux {} exAud (fun _ => none) 2 exBl (exEl.take 2)).map (fun r => r.1.map (·.typ))) =
     some [35, 32, 19, 36, 35, 1, 40, 63, 62] := by decide
+
+/-- the BL above followed by an AUD (labelled 2 = the frame count by hevc_parser): under --no-add-aud, which keeps
+the BL's own AUDs, the trailing AUD is not written — and neither is the EL frame (NAL + RPU) of the last picture;
+no error -/
+example : (mux { noAddAud := true } exAud (fun _ => none) 2 (exBl ++ [⟨35, [0x46, 1, 0x50], 2⟩]) exEl).map
+      (fun r => (r.1.map (·.typ), r.2)) = some ([35, 32, 19, 63, 62, 36, 1, 40], false) ∧
+    (mux { noAddAud := true } exAud (fun _ => none) 2 exBl exEl).map
+      (fun r => (r.1.map (·.typ), r.2)) = some ([35, 32, 19, 63, 62, 36, 1, 40, 63, 62], false) := by decide
+
+/-- the same with AUDs regenerated and a trailing AUD + prefix SEI + VPS -/
+example : (mux {} exAud (fun _ => none) 2
+      (exBl ++ [⟨35, [0x46, 1, 0x50], 2⟩, ⟨39, [0x4E, 1, 5, 1, 7, 0x80], 2⟩, ⟨32, [0x40, 1, 0x0C], 2⟩]) exEl).map
+      (fun r => (r.1.map (·.typ), r.2)) = some ([35, 32, 19, 63, 62, 36, 35, 1, 40], false) := by decide
 
 /-- a well-formed dual-layer stream for `demux_mux_id` -/
 def exDl : List DlFrame :=
   [⟨0, [⟨35, [0x46, 1, 0x10], 0⟩, ⟨19, [0x26, 1, 0xAA], 0⟩], [⟨63, [0x7E, 1, 0x26, 1, 0xAB], 0⟩, ⟨62, [0x7C, 1, 0x19, 0xA0], 0⟩], [⟨36, [0x48, 1], 0⟩]⟩,
    ⟨1, [⟨1, [0x02, 1, 0xBB], 1⟩], [⟨62, [0x7C, 1, 0x19, 0xA1], 1⟩], []⟩]
 
-example : (mux { noAddAud := true } exAud (fun _ => none) ((exDl.flatMap DlFrame.all).filter isBl)
+example : (mux { noAddAud := true } exAud (fun _ => none) 2 ((exDl.flatMap DlFrame.all).filter isBl)
     (((exDl.flatMap DlFrame.all).filter isEl).map unwrapItem)).map (fun r => (r.1.map pay, r.2)) =
     some ((exDl.flatMap DlFrame.all).map payI, false) := by decide
 
@@ -210,7 +253,7 @@ def exDlCanon : List DlFrame :=
   [⟨0, [⟨35, [0x46, 1, 0x10], 0⟩, ⟨19, [0x26, 1, 0xAA], 0⟩], [⟨63, [0x7E, 1, 0x26, 1, 0xAB], 0⟩, ⟨62, [0x7C, 1, 0x19, 0xA0], 0⟩], [⟨36, [0x48, 1], 0⟩]⟩,
    ⟨1, [⟨35, [0x46, 1, 0x30], 1⟩, ⟨1, [0x02, 1, 0xBB], 1⟩], [⟨62, [0x7C, 1, 0x19, 0xA1], 1⟩], []⟩]
 
-example : (mux {} exAud (fun _ => none) ((exDlCanon.flatMap DlFrame.all).filter isBl)
+example : (mux {} exAud (fun _ => none) 2 ((exDlCanon.flatMap DlFrame.all).filter isBl)
     (((exDlCanon.flatMap DlFrame.all).filter isEl).map unwrapItem)).map (fun r => (r.1.map pay, r.1.map (·.sc), r.2)) =
     some ((exDlCanon.flatMap DlFrame.all).map payI, [4, 4, 4, 4, 4, 4, 4, 4], false) := by decide
 
